@@ -199,3 +199,46 @@ Theorem C17_text_unlisted_function : forall re_ok ns fn oa,
   exists msg, compile re_ok (print_min (call_px fn oa)) ns = Err msg.
 Proof. exact C17_text_go_unlisted_name. Qed.
 Print Assumptions C17_text_unlisted_function.
+
+(* further classes (Proofs/EndToEndRejectTokens.v): a damaged SECOND predicate, an outer bracket
+   missing around a nested predicate, an unknown axis (also the namespace axis), a variable
+   reference, an unclosed string literal as the first token *)
+From XP.Proofs Require Import EndToEndName EndToEndRejectTokens.
+Open Scope string_scope.
+
+Theorem C17_text_second_predicate_damaged : forall re_ok ns p e1 e2,
+  path_syntax p -> xwf e1 -> xwf e2 -> S (Nat.max (xdepth e1) (xdepth e2)) < max_depth ->
+  rejected_all re_ok ns (xtoks p ++ TP ILBracket :: xtoks e1 ++ TP IRBracket :: TP ILBracket :: xtoks e2) /\
+  rejected_all re_ok ns (xtoks p ++ TP ILBracket :: xtoks e1 ++ [TP IRBracket; TP ILBracket]).
+Proof.
+  intros re_ok ns p e1 e2 Hp H1 H2 Hd. split.
+  - exact (C17_text_second_predicate_not_closed re_ok ns p e1 e2 Hp H1 H2 Hd).
+  - apply (C17_text_cut_after_second_lbracket re_ok ns p e1 Hp H1).
+    eapply Nat.le_lt_trans; [|exact Hd]. apply le_n_S. apply Nat.le_max_l.
+Qed.
+Print Assumptions C17_text_second_predicate_damaged.
+
+Theorem C17_text_outer_bracket_missing_ : forall re_ok ns p e1 e2,
+  path_syntax p -> path_syntax e1 -> xwf e2 -> S (S (xdepth e2)) < max_depth ->
+  rejected_all re_ok ns (xtoks p ++ TP ILBracket :: (xtoks e1 ++ TP ILBracket :: xtoks e2 ++ [TP IRBracket])).
+Proof. exact C17_text_outer_bracket_missing. Qed.
+Print Assumptions C17_text_outer_bracket_missing_.
+
+Theorem C17_text_unknown_axis : forall re_ok ns ax nm,
+  name_ok ax = true -> name_ok nm = true -> supported_axis ax = false ->
+  compile re_ok (ax ++ "::" ++ nm) ns =
+  Err (if String.eqb ax "namespace" then "xpath: the namespace axis is not supported" else "unknown axe type").
+Proof. exact C17_text_unsupported_axis. Qed.
+Print Assumptions C17_text_unknown_axis.
+
+Theorem C17_text_variable_reference : forall re_ok ns nm,
+  xok (XVar nm) ->
+  compile re_ok (print_min (XVar nm)) ns = Err "xpath: variable is not supported" /\
+  forall b e, xwf (XBin b (XVar nm) e) -> xok (XBin b (XVar nm) e) -> xdepth (XBin b (XVar nm) e) < max_depth ->
+    compile re_ok (print_min (XBin b (XVar nm) e)) ns = Err "xpath: variable is not supported".
+Proof.
+  intros re_ok ns nm H. split.
+  - exact (C17_text_variable re_ok ns nm H).
+  - intros b e. exact (C17_text_variable_operand re_ok ns b nm e).
+Qed.
+Print Assumptions C17_text_variable_reference.
